@@ -59,6 +59,32 @@ fn payload(rng: &mut Rng, kind: u64, max: usize) -> (String, Vec<u8>) {
     }
 }
 
+/// Payloads that start like (or are) a compressed stream of one of the codecs: magic numbers, nested streams.
+fn nested_payloads(rng: &mut Rng) -> Vec<(String, Vec<u8>)> {
+    let inner = rng.bytes(300);
+    let mut v: Vec<(String, Vec<u8>)> = Vec::new();
+    for c in [R::C_GZIP, R::C_BROTLI, R::C_ZSTD] {
+        if let Ok(z) = R::codec_compress(c, &inner, &CodecParams::plain()) {
+            v.push((format!("nested {} stream", R::codec_name(c)), z.clone()));
+            let mut t = z;
+            t.truncate(t.len() / 2);
+            v.push((format!("nested truncated {} stream", R::codec_name(c)), t));
+        }
+    }
+    v.push((String::from("nested gzip magic only"), vec![0x1f, 0x8b, 0x08]));
+    v.push((String::from("nested gzip magic + junk"), {
+        let mut b = vec![0x1f, 0x8b, 0x08, 0x00];
+        b.extend(rng.bytes(40));
+        b
+    }));
+    v.push((String::from("nested zstd magic + junk"), {
+        let mut b = vec![0x28, 0xb5, 0x2f, 0xfd];
+        b.extend(rng.bytes(40));
+        b
+    }));
+    v
+}
+
 fn mat(name: &str, x: &[u8], codec: u8, extra: &str) -> Value {
     json!({"payload": name, "len": x.len(), "fingerprint": hash_bytes(x), "codec": R::codec_name(codec), "mode": extra,
            "head": crate::obs::hex(&x[..x.len().min(32)])})
@@ -350,6 +376,22 @@ pub fn run(ctx: &mut Ctx) {
         }
         case += 1;
     }
+    // ---- payloads that look like compressed streams themselves
+    if ctx.mine(case) {
+        ctx.begin(case);
+        let mut rng = ctx.rng("c14.nested", 0);
+        for (name, x) in nested_payloads(&mut rng) {
+            for codec in R::CODECS {
+                one_shot(ctx, &name, &x, codec, &mut rng, None, &mut 0);
+                streamed(ctx, &name, &x, codec, &Sched::Fixed(7), &Sched::Fixed(3), false, &mut rng);
+                streamed(ctx, &name, &x, codec, &Sched::Fixed(64), &Sched::Full, true, &mut rng);
+            }
+            ctx.case(hash_bytes(&x) ^ 0x4e, true);
+            ctx.count("payload.nested");
+        }
+        ctx.end(case);
+    }
+    case += 1;
     // ---- payloads beyond typical internal thresholds (4 MiB, 8 MiB): one-shot helpers + one streamed mode
     for (k, n) in [(4usize << 20) + 1, 8 << 20, (9 << 20) + 17, (16 << 20) + 3].iter().enumerate() {
         if k == 3 && ctx.quick() {
